@@ -89,6 +89,12 @@ func VerifyEventSignatures(ctx context.Context, e PDU, verifier JSONVerifier, us
 			if err != nil {
 				return err
 			}
+			// The mapping must be the sender's. A server vouches for "user_room_key belongs to user_id";
+			// a mapping for another key (anybody can copy one from a join of that user) says nothing about
+			// the key that sent this event.
+			if mapping.UserRoomKey != e.SenderID() {
+				return fmt.Errorf("mxid_mapping is for %q, not for the sender %q", mapping.UserRoomKey, e.SenderID())
+			}
 			err = validateMXIDMappingSignatures(ctx, e, *mapping, verifier, verImpl)
 			if err != nil {
 				return err
